@@ -6,7 +6,7 @@ from .. import rules_axis as ra
 from ..pure import Purity, is_memoised
 
 DECIDES = ('the value reaching lru_cache(maxsize=...) is an int for every value of GEOMDL_CACHE_SIZE (KD1: import cannot fail) and memoised '
-           'bodies are pure functions of their arguments (PU4: cache size cannot change a result); the two span-search functions are '
+           'bodies are pure functions of their arguments (PU4: cache size cannot change a result) and no caller in the package mutates or stores a memoised result (PU4.memo-result-immutable); both surface derivative evaluators write the derivative table at [u-order][v-order] with direction-coherent bounds (AX6); the two span-search functions are '
            'interface-compatible and every call through the pluggable slot passes exactly (degree, knot_vector, num_ctrlpts, knot) of one '
            'direction (AG4, AX1); every geometry constructor and the evaluator setter hand the object\'s span function to the evaluator (SP1); '
            'all 8 evaluator classes implement evaluate/derivatives with the common signature and read only keys the matching data '
@@ -30,6 +30,10 @@ def site(fi, node=None):
 def check(m, run):
     kd1(m, run)
     pu4(m, run)
+    from . import c16, c02
+    c16.pu4(m, run)        # ... and no caller mutates a memoised result: otherwise results depend on what is still cached (cache size, call history)
+    ev_ = lambda c: m.cls('evaluators', c).methods['derivatives']
+    c02.ax6(m, run, [ev_('SurfaceEvaluator'), ev_('SurfaceEvaluator2')])   # both evaluator families fill the derivative table in the same [u-order][v-order] positions
     ag4(m, run)
     sp1(m, run)
     ev1_ag3(m, run)
